@@ -1536,6 +1536,52 @@ pub fn param_cases() -> Vec<StmtCase> {
         v.push(t_case("query", format!("query {{ T (r = {}) {{ id r {{ name }} }} }}", lt), vec![], format!("ii|filter-ref|-|{}", lc)));
         v.push(t_case("query", format!("query {{ T (rs != {}, nullable(rs)) {{ id rs {{ name }} }} }}", lt), vec![], format!("ii|filter-array|-|{}", lc)));
     }
+    // feature combinations of one query: selection shape x filter x ordering / paging (every pair of options the
+    // compiler assembles into one SQL statement: WHERE, GROUP BY, HAVING, ORDER BY, LIMIT)
+    {
+        let selections: [(&str, &str); 5] = [
+            ("plain", "id s_p"),
+            ("group-count", "s_p c: count()"),
+            ("group-max", "s_p c: max(i_p)"),
+            ("count-only", "c: count()"),
+            ("with-sub", "id s_p rs { name }"),
+        ];
+        let filters: [(&str, &str); 5] = [
+            ("none", ""),
+            ("field", "i_p >= 0"),
+            ("aggregate", "c > 0"),
+            ("search", "search(\"txt\")"),
+            ("field+aggregate", "i_p >= 0, c > 0"),
+        ];
+        let pagings: [(&str, &str); 9] = [
+            ("none", ""),
+            ("order", "order_by(s_p asc)"),
+            ("first", "order_by(s_p asc), first 2"),
+            ("first-skip", "order_by(s_p desc), first 2, skip 1"),
+            ("after", "order_by(s_p asc), after(\"a\")"),
+            ("before", "order_by(s_p asc), before(\"z\")"),
+            ("after-param", "order_by(s_p desc), after($v)"),
+            ("before-param", "order_by(s_p desc), before($v)"),
+            ("before-first", "order_by(s_p asc), before(\"z\"), first 1"),
+        ];
+        for (sn, sel) in selections {
+            for (fnm, fil) in filters {
+                for (pn, pag) in pagings {
+                    if fnm.contains("aggregate") && !sel.contains("c:") {
+                        continue;
+                    }
+                    if *sn == *"count-only" && *pn != *"none" {
+                        // nothing selected to order by
+                        continue;
+                    }
+                    let opts: Vec<&str> = [fil, pag].into_iter().filter(|x| !x.is_empty()).collect();
+                    let head = if opts.is_empty() { String::new() } else { format!("({})", opts.join(", ")) };
+                    let params = if pag.contains("$v") { vec![("v".to_string(), Pv::S("m".into()))] } else { vec![] };
+                    v.push(t_case("query", format!("query {{ T {} {{ {} }} }}", head, sel), params, format!("ii|combo|{}|{}+{}", sn, fnm, pn)));
+                }
+            }
+        }
+    }
     // an extra, unknown parameter is ignored or refused, never fatal
     v.push(t_case("query", "query { T { id } }".into(), vec![("zz".into(), Pv::I(1))], "ii|extra-parameter|-|Integer".into()));
     v
